@@ -113,6 +113,8 @@ class DepEval:
             return set()
         if isinstance(e, ast.BinOp) and isinstance(e.op, ast.BitOr):
             return self.ev(e.left) | self.ev(e.right)
+        if isinstance(e, ast.IfExp):
+            return self.ev(e.body) | self.ev(e.orelse)          # may-denote: the union is an upper bound
         if isinstance(e, ast.Call) and isinstance(e.func, ast.Attribute) and e.func.attr == "union":
             return self.ev(e.func.value).union(*[self.ev(a) for a in e.args])
         if isinstance(e, ast.Call) and u(e.func) in ("set", "frozenset", "sorted", "list", "tuple") and len(e.args) == 1:
@@ -172,9 +174,11 @@ def c16_1(rep, ix, f, sh):
     # grid idiom: for q in D: grid[q].append([idx, cmd])      frontier idiom: for q in D: add_edge(frontier[q], idx) ... for q in D': frontier[q] = idx
     wl = [n for n in lp.body if isinstance(n, ast.For) and any(isinstance(x, ast.Call) and isinstance(x.func, ast.Attribute) and x.func.attr == "append" for x in ast.walk(n))]
     el = [n for n in walk_shallow(lp) if isinstance(n, ast.For) and any(isinstance(x, ast.Call) and isinstance(x.func, ast.Attribute) and x.func.attr == "add_edge" for x in ast.walk(n))]
-    if len(wl) == 1 and not el:
+    if len(wl) >= 1 and not el:
         sh["wire_loop"], sh["idiom"] = wl[0], "grid"
-        loops = [("the wire loop", wl[0])]
+        # several families of wire lists (e.g. one for modes, one for registers) each order the operations: each must see all wires of
+        # an operation, or operations that meet only across the families are left unordered
+        loops = [("the wire loop" if len(wl) == 1 else "wire loop %d" % (i_ + 1), l_) for i_, l_ in enumerate(wl)]
     elif el and not wl:
         sh["idiom"] = "frontier"
         loops = [("the edge loop", l) for l in el]
